@@ -313,3 +313,26 @@ Definition ssa_check (c : cfg) (idom : list (option N)) : bool :=
   end &&
   nodup_v (all_defs c) &&
   forallb (occurrence_ok c) (all_occurrences c).
+
+(* ---- reads of locals carry a version (third audit) ----
+   [read_ok] and [occurrence_ok] accept every unversioned read ("unversioned names
+   are not locals"; the declaration table lists the locals under their versioned
+   names only, so [decl_type] of an unversioned name is never [TLocal]).  This
+   separate condition says that the reading is right: no statement reads, without
+   a version, a name whose key (name, suffix) is the key of a declared version of a
+   local or of a parameter.  Phi arguments are not reads: there the unversioned name
+   records a path on which the variable is still unassigned. *)
+Definition local_key (c : cfg) (k : key) : bool :=
+  existsb (fun d => key_eqb (key_of (fst d)) k && vtype_eqb (snd d) TLocal &&
+                    match vn_version (fst d) with Some _ => true | None => false end) (c_decls c)
+  || existsb (fun x => key_eqb (key_of x) k) (c_params c).
+
+Definition unversioned_read_ok (c : cfg) (v : vname) : bool :=
+  match vn_version v with
+  | Some _ => true
+  | None => negb (local_key c (key_of v))
+  end.
+
+Definition unversioned_reads_ok (c : cfg) : bool :=
+  forallb (fun b => forallb (fun s => forallb (unversioned_read_ok c) (stmt_reads s)) (b_stmts b)) (c_blocks c).
+
